@@ -47,7 +47,7 @@ def select(obls, globs):
 # obligation failed, (b) when a code change took a function out of the deductive units' reach (undecided), (c) in the
 # thorough tier. They are never run by the quick tier on a tree where every obligation is discharged.
 BOUNDED = {
-    'codec_model': {'test': 'replays/suite/vx_codec_model.rs', 'props': ['C12'],
+    'codec_model': {'test': 'replays/suite/vx_codec_model.rs', 'props': ['C12', 'C11'],
                     'bound': 'TTL edge values in both spellings and inside a stored frame; 270 ReadOptions combinations through to_query_string / '
                              'from_query; fixed lists of malformed TTLs and options'},
     'content_model': {'test': 'replays/suite/vx_content_model.rs', 'props': ['C10', 'C13'],
